@@ -1,6 +1,7 @@
 package main
 
 import (
+	"hash/crc32"
 	"fmt"
 	"github.com/brocaar/lorawan/backend"
 
@@ -8,6 +9,15 @@ import (
 )
 
 func init() { families["crypto"] = drvCrypto }
+
+var keyHist []lorawan.AES128Key
+
+func minInt(a, b int) int {
+	if a < b {
+		return a
+	}
+	return b
+}
 
 func (c *ctx) key() lorawan.AES128Key {
 	var k lorawan.AES128Key
@@ -22,8 +32,94 @@ func (c *ctx) key() lorawan.AES128Key {
 	case 2:
 		k = lorawan.AES128Key{}
 		k[c.rnd.Intn(16)] = 1 << uint(c.rnd.Intn(8))
+	case 3, 4, 5:
+		// a key that was used earlier in this process - any number of other keys ago (a device that comes back)
+		if len(keyHist) > 0 {
+			k = keyHist[c.rnd.Intn(len(keyHist))]
+		}
+	case 6:
+		// a key that equals an earlier key under a weak digest (CRC-32, Adler-32, FNV, byte sum / xor, leading or trailing
+		// bytes): whatever is remembered per key under less than the key itself gives the wrong answer here
+		if n := len(keyHist); n > 0 {
+			i := c.rnd.Intn(n)
+			if c.rnd.Intn(2) == 0 { // ... of one of the last keys: small tables forget quickly
+				i = n - 1 - c.rnd.Intn(minInt(3, n))
+			}
+			k = weakTwin(c, keyHist[i])
+		}
+	}
+	if len(keyHist) < 4096 {
+		keyHist = append(keyHist, k)
 	}
 	return k
+}
+
+// crc32Twin returns a key with the same CRC-32 (polynomial tab) as k that differs from it in bytes 8..15: four bytes are
+// chosen freely, the last four are solved for (the CRC register after 12 bytes determines them: CRC is run backwards from
+// the wanted final register).
+func crc32Twin(c *ctx, k lorawan.AES128Key, tab *crc32.Table) lorawan.AES128Key {
+	t := k
+	copy(t[8:12], c.bytesN(4))
+	// register (pre-inversion form) after the first 12 bytes of t, and wanted final register = that of k
+	reg := func(b []byte) uint32 {
+		r := uint32(0xffffffff)
+		for _, x := range b {
+			r = tab[byte(r)^x] ^ r>>8
+		}
+		return r
+	}
+	want := reg(k[:])
+	cur := reg(t[:12])
+	// run the table backwards: find the 4 table indices that produce `want` from any register, then the bytes
+	var idx [4]byte
+	w := want
+	for i := 3; i >= 0; i-- {
+		for j := 0; j < 256; j++ {
+			if byte(tab[j]>>24) == byte(w>>24) {
+				idx[i] = byte(j)
+				w = (w ^ tab[j]) << 8
+				break
+			}
+		}
+	}
+	r := cur
+	for i := 0; i < 4; i++ {
+		t[12+i] = byte(r) ^ idx[i]
+		r = tab[idx[i]] ^ r>>8
+	}
+	return t
+}
+
+func weakTwin(c *ctx, k lorawan.AES128Key) lorawan.AES128Key {
+	t := k
+	switch c.rnd.Intn(8) {
+	case 0:
+		t = crc32Twin(c, k, crc32.IEEETable)
+	case 1:
+		t = crc32Twin(c, k, crc32.MakeTable(crc32.Castagnoli))
+	case 2: // same byte sum and same xor-fold is too much to ask; same byte sum (also Adler's low half): move one unit
+		i, j := c.rnd.Intn(16), c.rnd.Intn(16)
+		if i != j && t[i] < 255 && t[j] > 0 {
+			t[i]++
+			t[j]--
+		}
+	case 3: // same xor of all bytes: flip the same bit in two bytes
+		i, j, b := c.rnd.Intn(16), c.rnd.Intn(16), byte(1)<<uint(c.rnd.Intn(8))
+		if i != j {
+			t[i] ^= b
+			t[j] ^= b
+		}
+	case 4: // same leading 8 bytes
+		copy(t[8:], c.bytesN(8))
+	case 5: // same trailing 8 bytes
+		copy(t[:8], c.bytesN(8))
+	case 6: // same leading 4 and trailing 4 bytes
+		copy(t[4:12], c.bytesN(8))
+	default: // the same bytes in another order (equal as a multiset, equal under any symmetric digest)
+		i, j := c.rnd.Intn(16), c.rnd.Intn(16)
+		t[i], t[j] = t[j], t[i]
+	}
+	return t
 }
 
 func cloneM(v interface{}) interface{} {
@@ -233,6 +329,8 @@ func (c *ctx) micCase(maxFrm int) {
 	perts := []pert{
 		{"fkey", func(q *micParams, ph *lorawan.PHYPayload) { q.fkey = flipKey(q.fkey, c.rnd.Intn(128)) }},
 		{"skey", func(q *micParams, ph *lorawan.PHYPayload) { q.skey = flipKey(q.skey, c.rnd.Intn(128)) }},
+		{"fkey-twin", func(q *micParams, ph *lorawan.PHYPayload) { q.fkey = weakTwin(c, q.fkey) }},
+		{"skey-twin", func(q *micParams, ph *lorawan.PHYPayload) { q.skey = weakTwin(c, q.skey) }},
 		{"fcnt-low", func(q *micParams, ph *lorawan.PHYPayload) {
 			ph.MACPayload.(*lorawan.MACPayload).FHDR.FCnt ^= 1 << uint(c.rnd.Intn(16))
 		}},
@@ -378,6 +476,9 @@ func (c *ctx) cipherCase() {
 		switch c.rnd.Intn(5) {
 		case 0:
 			k2 = flipKey(key, c.rnd.Intn(128))
+			if c.rnd.Intn(2) == 0 {
+				k2 = weakTwin(c, key)
+			}
 		case 1:
 			up2 = !up
 		case 2:
@@ -554,6 +655,7 @@ func (c *ctx) joinCase() {
 	cp := func() *lorawan.PHYPayload { return valToPhy(cloneM(phyToVal(phy)).(M), false) }
 	val("same", cp(), key, jt, jeui, dn)
 	val("key", cp(), flipKey(key, c.rnd.Intn(128)), jt, jeui, dn)
+	val("key-twin", cp(), weakTwin(c, key), jt, jeui, dn) // another key that equals this one under a weak digest
 	ph := cp()
 	ph.MIC[c.rnd.Intn(4)] ^= 1 << uint(c.rnd.Intn(8))
 	val("mic", ph, key, jt, jeui, dn)
